@@ -14,6 +14,9 @@
    op 4  detect_bad_channels.detrend(x, 11)
      input : 4 :: n :: x[n] (integers)
      output: n integers  floor(value * 2^32)
+   op 5  geometry: the source channels of every dead/noisy channel, from integer site coordinates
+     input : 5 :: nc :: labels[nc] ++ xs[nc] ++ ys[nc]
+     output: for each dead/noisy channel in ascending order: number of sources :: source channels
    op 3  detect_bad_channels_cbin, mode
      input : 3 :: nc :: nb :: labels (nb batches of nc)
      output: nc labels *)
@@ -114,6 +117,12 @@ Definition run (inp : list Z) : list Z :=
   | 1 :: nc :: ns :: kd :: rest => run_interp nc ns kd rest
   | 2 :: nc :: rest => run_rule nc rest
   | 4 :: n :: rest => map enc_val (detrend11 QcOps (map (fun z => dyadic z 0) (firstn (Z.to_nat n) rest)))
+  | 5 :: nc :: rest =>
+      let '(labels, r1) := take_z nc rest in
+      let '(xs, r2) := take_z nc r1 in
+      let '(ys, _) := take_z nc r2 in
+      flat_map (fun i => let s := geo_sources xs ys labels i in
+                         Z.of_nat (length s) :: map Z.of_nat s) (bad_positions labels)
   | 3 :: nc :: nb :: rest => cbin_labels (Z.to_nat nc) (chunks (Z.to_nat nb) (Z.to_nat nc) rest)
   | _ => [-999]
   end.
